@@ -58,6 +58,16 @@ def build_go(log):
     log["go_build_s"] = round(time.time() - t, 1)
 
 
+def build_go_race(log):
+    """The same harness built with the Go race detector (profiles conc / node of C20)."""
+    t = time.time()
+    hdir = os.path.join(VERIF, "harness")
+    rc, out = sh(["go", "build", "-race", "-tags", GUARD_TAG, "-o", os.path.join(BUILD, "hxr"), "."], cwd=hdir, env=GOENV)
+    if rc != 0:
+        raise BuildError("go build -race of the harness against /repo", out)
+    log["go_race_build_s"] = round(time.time() - t, 1)
+
+
 def run_translator(log):
     """tools/gen (part of the hx binary: `hx gen`) regenerates coq/Generated/*.v from /repo."""
     t = time.time()
